@@ -26,7 +26,7 @@ theorem facts_hold :
     recordNeedsSetup = true ∧ serverPortsRule = true ∧ anyPortIs0or1 = true ∧
     interleavedConsecutive = true ∧ channelInUseRule = true ∧ profileMustMatch = true ∧
     unexpectedFrameFatal = true ∧ serverRequestOnlyOptions = true ∧ mediaURLReportsParseError = true ∧
-    closeCancelsAndWaits = true ∧
+    closeCancelsAndWaits = true ∧ redirectCap = true ∧ teardownKeepsMustClose = true ∧ maxRedirects = 10 ∧
     statusOK = 200 ∧ statusMovedPermanently = 301 ∧ statusUseProxy = 305 ∧ statusUnauthorized = 401 ∧
     statusNotFound = 404 ∧ statusUnsupportedTransport = 461 := by
   decide
@@ -199,7 +199,7 @@ theorem every_call_returns (c : Cfg) (s : St) (m : Meth) (n tp : Nat) (k : List 
 
 example :
     let s := step {} init (.call .describe)
-    s.closed = false ∧ s.stack = [.wait .options 1 0, .optionsK, .doOpt .describe false 0, .describeK] ∧
+    s.closed = false ∧ s.stack = [.wait .options 1 0, .optionsK, .doOpt .describe false 0, .describeK 0] ∧
     s.pending = some .describe := by decide
 
 /-- the same for the other ways a wait can fail: connection lost / unparsable input, a request of
@@ -238,7 +238,7 @@ theorem close_reaches_closed (c : Cfg) (s : St) (h : Inv s) : (step c s .close).
     · have : step c s .close = resume c k { s with ctxDone := true, mustClose := true } (.err .terminated) := by
         simp [step, hc, hs, waitFail]
       rw [this]
-      exact resume_dying c k _ _ ⟨rfl, rfl⟩
+      exact resume_dying c k { s with ctxDone := true, mustClose := true } _ (by simp [Dying])
 
 /-- … and the error latched by a Close of a running client is an error (never nil) -/
 theorem close_reports_error (c : Cfg) (s : St) (h : Inv s) (hc : s.closed = false) :
@@ -248,7 +248,7 @@ theorem close_reports_error (c : Cfg) (s : St) (h : Inv s) (hc : s.closed = fals
   · have : step c s .close = resume c k { s with ctxDone := true, mustClose := true } (.err .terminated) := by
       simp [step, hc, hs, waitFail]
     rw [this]
-    exact (resume_dyingE c k _ _ ⟨rfl, rfl⟩).2
+    exact (resume_dyingE c k { s with ctxDone := true, mustClose := true } .terminated (by simp [Dying])).2
 
 /-- from any reachable state: Close closes, a second Close changes nothing, and every later API call
 returns the latched error at once -/
